@@ -98,6 +98,9 @@ def residue_counts(rig):
                 stimers=sum(1 for e in vt.tm.tasks if isinstance(e[2], ServerSSM)))
 
 
+HANGS = [0]         # runs that did not finish (drivers stop generating further runs after a few)
+
+
 def record(rc, faults=None, order="fifo", rng=None, script=None, silence_from=None, limit=3000):
     """run the real code once; returns dict(cfg, faults, evs, meta)"""
     import tsmrig
@@ -122,8 +125,9 @@ def record(rc, faults=None, order="fifo", rng=None, script=None, silence_from=No
         else:
             evs = rig.run_policy(faults=faults, order=order, rng=rng, silence_from=silence_from, limit=limit)
     except Hang as h:
-        evs = rig.evs
+        evs = rig.evs[:300]         # the verdict is Terminates; the prefix is kept for the other monitors
         hang = str(h)
+        HANGS[0] += 1
     payload_ok = all(o["payload_ok"] for o in rig.cout) and all(i["ok"] for i in rig.sind)
     frames = [rig.frame_rec(f) for f in rig.wire]
     first_cr = next(({k: f[3][k] for k in ("sa", "maxresp", "maxsegs", "id")} for f in rig.wire if f[3]["k"] == "CR"), None)
